@@ -131,6 +131,10 @@ pub fn templates(thorough: bool) -> Vec<(String, X, Vec<(String, Ty, bool)>)> {
         out.push((format!("{ty}: a + MAX"), bin(Plus, col("a", &ty), lit(&ty, ty.min_max().1)), cols[..1].to_vec()));
         if ty.signed() {
             out.push((format!("{ty}: -a"), X::Neg(Box::new(col("a", &ty))), cols[..1].to_vec()));
+            // a column-free operand is a scalar: ScalarValue::arithmetic_negate is checked
+            out.push((format!("{ty}: a < -(MIN)"), bin(Lt, col("a", &ty), X::Neg(Box::new(lit(&ty, ty.min_max().0)))), cols[..1].to_vec()));
+            out.push((format!("{ty}: a < -(MIN+1)"), bin(Lt, col("a", &ty), X::Neg(Box::new(lit(&ty, ty.min_max().0 + 1)))), cols[..1].to_vec()));
+            out.push((format!("{ty}: a < -(1 - 2)"), bin(Lt, col("a", &ty), X::Neg(Box::new(bin(Minus, lit(&ty, 1), lit(&ty, 2))))), cols[..1].to_vec()));
             out.push((format!("{ty}: a / -1"), bin(Divide, col("a", &ty), lit(&ty, -1)), cols[..1].to_vec()));
             out.push((format!("{ty}: a % -1"), bin(Modulo, col("a", &ty), lit(&ty, -1)), cols[..1].to_vec()));
         }
